@@ -327,6 +327,9 @@ func (w *World) exchangeTable(oldTableID, newTableID tableID, relations []relati
 
 	startIdx := uint32(newTable.Len())
 	count := oldTable.len
+	if startIdx > 0 && count > 0 {
+		verifProbe(verifProbeBatchIntoNonEmpty)
+	}
 
 	var i uint32
 	for i = range count {
